@@ -132,6 +132,10 @@ impl<'a, T> ItemTask<'a, T> {
 #[must_use = "parallel iterators are lazy and do nothing unless consumed"]
 pub struct ParIter<'a, T, K = Unindexed> {
     pub(crate) tasks: Vec<ItemTask<'a, T>>,
+    /// Partition of the tasks into runs of consecutive tasks ("jobs": what one rayon worker
+    /// processes sequentially without being split further). Set by adaptors that keep
+    /// per-job state (`map_init`, `map_with`, ...); `None` = every task is its own job.
+    pub(crate) runs: Option<Vec<usize>>,
     kind: PhantomData<fn() -> K>,
 }
 
@@ -159,7 +163,15 @@ impl<'b, T: Send, K: Kind> ParallelIterator for ParIter<'b, T, K> {
 
 impl<'a, T: Send + 'a, K> ParIter<'a, T, K> {
     pub(crate) fn from_tasks(tasks: Vec<ItemTask<'a, T>>) -> Self {
-        ParIter { tasks, kind: PhantomData }
+        ParIter { tasks, runs: None, kind: PhantomData }
+    }
+
+    /// The partition into jobs, chosen by the oracle the first time it is needed.
+    pub(crate) fn ensure_runs(&mut self) -> Vec<usize> {
+        if self.runs.is_none() {
+            self.runs = Some(choose_chunks(self.tasks.len()));
+        }
+        self.runs.clone().unwrap()
     }
 
     /// Apply `f` to every task (with its index).
@@ -168,7 +180,11 @@ impl<'a, T: Send + 'a, K> ParIter<'a, T, K> {
         f: impl FnMut(usize, ItemTask<'a, T>) -> ItemTask<'a, U>,
     ) -> ParIter<'a, U, K2> {
         let mut f = f;
-        ParIter::from_tasks(self.tasks.into_iter().enumerate().map(|(i, task)| f(i, task)).collect())
+        let runs = self.runs;
+        let mut out = ParIter::from_tasks(self.tasks.into_iter().enumerate().map(|(i, task)| f(i, task)).collect());
+        // same number of tasks, same positions: the job partition carries over
+        out.runs = runs;
+        out
     }
 
     /// The common shape of an adaptor: every item of every task goes through
@@ -222,11 +238,43 @@ impl<'a, T: Send + 'a, K> ParIter<'a, T, K> {
     /// Terminal step: run all tasks as one section.  `per_task` executes inside
     /// the task; slot `i` of the result is `None` if task `i` was skipped.
     pub(crate) fn run<R: Send>(self, per_task: &(impl Fn(usize, ItemTask<'a, T>) -> R + Sync)) -> Vec<Option<R>> {
-        let tasks = self.tasks.into_iter().enumerate().map(|(index, task)| {
-            let guards = task.guards.clone();
-            Task::new(move || per_task(index, task)).guarded_by(guards)
-        });
-        sched::section(tasks.collect())
+        let n = self.tasks.len();
+        match self.runs {
+            Some(sizes) if sizes.iter().sum::<usize>() == n && sizes.len() < n => {
+                // One section task per job; the members of a job run sequentially, in index
+                // order, like a rayon leaf that is not split any further.
+                let mut rest = self.tasks.into_iter().enumerate();
+                let jobs = sizes.into_iter().map(|size| {
+                    let members: Vec<(usize, ItemTask<'a, T>)> = rest.by_ref().take(size).collect();
+                    let guards: Vec<Arc<Stop>> = members.iter().flat_map(|m| m.1.guards.iter().cloned()).collect();
+                    Task::new(move || {
+                        let mut out = Vec::with_capacity(members.len());
+                        for (index, task) in members {
+                            if task.may_be_skipped() {
+                                break; // a sequential leaf checks `full()` between items
+                            }
+                            out.push((index, per_task(index, task)));
+                        }
+                        out
+                    })
+                    .guarded_by(guards)
+                });
+                let mut slots: Vec<Option<R>> = (0..n).map(|_| None).collect();
+                for job in sched::section(jobs.collect()).into_iter().flatten() {
+                    for (index, value) in job {
+                        slots[index] = Some(value);
+                    }
+                }
+                slots
+            }
+            _ => {
+                let tasks = self.tasks.into_iter().enumerate().map(|(index, task)| {
+                    let guards = task.guards.clone();
+                    Task::new(move || per_task(index, task)).guarded_by(guards)
+                });
+                sched::section(tasks.collect())
+            }
+        }
     }
 
     /// Terminal step: all items, in index order (whatever order the tasks ran in).
